@@ -5,21 +5,21 @@ HERE = os.path.dirname(os.path.abspath(__file__))
 VERIF = os.path.dirname(HERE)
 
 CLAIMED = {
-    'C05': dict(tech='Coq proof: builder/decoder round-trip theorems per opcode + vm_compute correspondence with msg*/Unpacker/read*',
+    'C05': dict(tech='Coq proof: builder/decoder round-trip theorems per opcode, also for the Gallina text translated from protocol.py on every run (pytrans.py + ProtoGenEq.v) + vm_compute correspondence with msg*/Unpacker/read*',
                 text='Six theorems (one per opcode) prove for all in-range field tuples that the built frame decodes to exactly '
                      'that opcode and those fields and that its length header equals its size; the Gallina builders, decoder, readers, '
                      'UTF-8 validator and SHA-1 are run by vm_compute against the real functions on generated field tuples every run.',
-                ref='DESIGN.md §6 C05', note='model hand-written; tie = differential test; str == UTF-8 bytes assumed'),
-    'C06': dict(tech='Coq proof: append-monotonicity of the decoder => chunk independence; vm_compute correspondence with Unpacker',
+                ref='DESIGN.md §6 C05, §11.8', note='tie = translator (protocol.py -> ProtoGen.v, proved equal to the hand-written model) + differential test; str == UTF-8 bytes assumed'),
+    'C06': dict(tech='Coq proof: append-monotonicity of the decoder => chunk independence, carried over to the Unpacker translated from protocol.py on every run; vm_compute correspondence with Unpacker',
                 text='feed_all chunks = parse (concat chunks) is proved for every byte stream and every chunking, with corollaries for '
                      'well-formed frame sequences (in order, once, prompt, only the tail buffered); the model is run against the real '
                      'Unpacker after each feed on exhaustive cut patterns of short streams and sampled cuts of long ones.',
-                ref='DESIGN.md §6 C06', note='model hand-written; tie = differential test'),
-    'C07': dict(tech='Coq proof: fuel adequacy (termination), exact decomposition of the input, header verdict lemma, residue bound',
+                ref='DESIGN.md §6 C06, §11.8', note='tie = translator (proved equal to the hand-written model) + differential test'),
+    'C07': dict(tech='Coq proof: fuel adequacy (termination), exact decomposition of the input, header verdict lemma, residue bound; termination and outcomes also for the Unpacker translated from protocol.py on every run',
                 text='Termination, validity of every yielded frame, exact byte accounting, rejection at the header and the buffer bound '
                      'are theorems over all byte strings and chunkings; the unrepaired decoder is proved to diverge on 00 00 00 00 00; '
                      'the model is run against the real Unpacker over a boundary lattice of headers and random streams under a watchdog.',
-                ref='DESIGN.md §6 C07', note='model hand-written; tie = differential test; hang = iteration watchdog'),
+                ref='DESIGN.md §6 C07, §11.8', note='tie = translator (proved equal to the hand-written model) + differential test; hang = iteration watchdog'),
 }
 
 ALL = ['C%02d' % i for i in range(1, 21)]
